@@ -4,6 +4,7 @@ import Nsq.Tie.AdminGate
 import Nsq.Proofs.AdminProg
 import Nsq.Tie.AdminProg
 import Nsq.Tie.AdminNotify
+import Nsq.Proofs.AdminReach
 /-!
 # C17 — nsqadmin state-changing actions require an admin identity
 
@@ -16,7 +17,7 @@ every behaviour of the upstreams (`Env`). The decidable judgements on the finite
 -/
 namespace Nsq.Props.C17
 open Nsq.Model.AdminGate Nsq.Proofs.AdminGate Nsq.Proofs.AdminFanout Nsq.Tie.AdminGate
-open Nsq.Gen.AdminRoutes
+open Nsq.Gen.AdminRoutes Nsq.Proofs.AdminReach
 
 /-- **mutating_guarded.** Every POST / PUT / DELETE route below `/api` in the regenerated table
 has a handler skeleton, and for every configuration, request and upstream behaviour: a request
@@ -166,6 +167,116 @@ example : run (sampleEnv ["alice"] [("X-Forwarded-User", "alice")]) adminSkel_ch
 example : run (sampleEnv [] []) adminSkel_channelActionHandler
     = (200, [.bodyRead, .upstream "EmptyChannel"]) := by decide
 example : run (sampleEnv ["alice"] []) adminSkel_channelActionHandler = (403, []) := by decide
+
+
+/-! ## "State-changing" by effect, and the action reached (audit round 7: C18, C19) -/
+
+/-- **state_change_requires_admin.** State-changing is defined by what a handler *does*, not by the method
+it is registered under: for every route of the regenerated table — GET routes included — and every
+environment, a run that shows a write to the outside (an upstream call that can send a non-GET request
+according to the regenerated classification `upstreamWrites`, a notification, a configuration write) belongs
+to a `/config` route (CIDR gate: `config_cidr`), to the graphite proxy, or was made with an admin identity. -/
+theorem state_change_requires_admin (r : Route) (hr : r ∈ adminRoutes) (sk : Skel) (hsk : skelOf r = some sk)
+    (env : Env) (hw : writeObs upstreamWrites (run env sk).2 = true) :
+    r.isConfig = true ∨ r.isProxy = true ∨ isAdmin env.conf env.req = true := by
+  by_cases hcw : canWrite upstreamWrites sk = true
+  · have h := writers_are_mutating_or_config
+    simp only [List.all_eq_true, List.mem_filter] at h
+    have h' := h r ⟨hr, by simp [skelWrites, hsk, hcw]⟩
+    simp only [Bool.or_eq_true] at h'
+    rcases h' with (hm | hc) | hp
+    · right; right
+      obtain ⟨sk', hsk', hg⟩ := mutating_guarded r hr hm
+      rw [hsk] at hsk'
+      cases hsk'
+      cases hadm : isAdmin env.conf env.req with
+      | true => rfl
+      | false => rw [hg env hadm] at hw; simp [writeObs] at hw
+    · exact Or.inl hc
+    · exact Or.inr (Or.inl hp)
+  · simp only [Bool.not_eq_true] at hcw
+    rw [noWrite_run upstreamWrites env sk hcw] at hw
+    cases hw
+
+/-- Non-vacuity: deleting a topic as an admin is such a write; the same request from somebody else shows
+nothing. -/
+example : writeObs upstreamWrites
+    (run (sampleEnv ["alice"] [("X-Forwarded-User", "alice")]) adminSkel_deleteTopicHandler).2 = true := by decide
+example : writeObs upstreamWrites
+    (run (sampleEnv ["alice"] [("X-Forwarded-User", "mallory")]) adminSkel_deleteTopicHandler).2 = false := by decide
+
+/-- **views_only_read.** Every GET route outside `/config` (API views, pages, static files) performs no write
+in any environment: no upstream call other than GETs, no notification, no configuration write. -/
+theorem views_only_read (r : Route) (hr : r ∈ adminRoutes) (hg : r.plainGet = true) :
+    ∃ sk, skelOf r = some sk ∧ ∀ env : Env, writeObs upstreamWrites (run env sk).2 = false := by
+  have h := get_routes_readonly
+  simp only [checkAll, List.all_eq_true, List.mem_filter] at h
+  have h' := h r ⟨hr, hg⟩
+  cases hs : skelOf r with
+  | none => simp [hs] at h'
+  | some sk =>
+    simp only [hs, Bool.not_eq_true'] at h'
+    exact ⟨sk, rfl, fun env => noWrite_run upstreamWrites env sk h'⟩
+
+example : (adminRoutes.filter Route.plainGet).length = 18 := by decide
+example : upstreamObs (run (sampleEnv [] []) adminSkel_topicHandler).2 = ["GetTopicProducers", "GetNSQDStats"] := by decide
+
+/-- **admin_carried_out.** "With an admin identity, or with no admin list, the action is carried out": for
+every mutating route and every environment in which the request carries an admin identity and is well
+formed — its body decodes, the names it gives pass `IsValidTopicName` / `IsValidChannelName` (the tests listed
+by `validOf`), and for the pause / unpause / empty routes the body names one of these three — the handler
+answers 200 or 502 *and* has performed exactly the `ClusterInfo` action of the table. There is no other way
+out behind the admin check. What that action sends where: `fanout_exactly_once`, `fanout_producers`. -/
+theorem admin_carried_out (r : Route) (hr : r ∈ adminRoutes) (hm : r.mutating = true) :
+    ∃ sk, skelOf r = some sk ∧ ∀ env : Env,
+      WellFormed env (validOf r.handler).others →
+      (∀ as, (validOf r.handler).actions = some as → env.req.action ∈ as) →
+      ((run env sk).1 = 200 ∨ (run env sk).1 = 502) ∧
+      upstreamObs (run env sk).2 =
+        [expectedAction r.handler env.req.action (env.req.nonEmptyParams.contains "channel")] := by
+  have h := mutating_routes_reach
+  simp only [List.all_eq_true, List.mem_filter] at h
+  have h' := h r ⟨hr, hm⟩
+  obtain ⟨sk0, hsk0, hfan⟩ := admin_fanout r hr hm
+  cases hs : skelOf r with
+  | none => simp [hs] at h'
+  | some sk =>
+    simp only [hs] at h'
+    rw [hs] at hsk0
+    have hsame : sk = sk0 := Option.some.inj hsk0
+    subst hsame
+    refine ⟨sk, rfl, fun env wf hact => ?_⟩
+    have hst := adminReaches_run env r.handler sk h' wf hact
+    exact ⟨hst, (hfan env).1 hst⟩
+
+/-- Non-vacuity, one 200-path per mutating handler: a well-formed request of an admin is answered 200 and
+the one expected action is among the effects. -/
+def okEnv (action : String) (params body : List String) : Env :=
+  { conf := { adminUsers := ["alice"], aclHeader := "X-Forwarded-User", cidrSet := false,
+              lookupdMode := true, notifyOn := false },
+    req := { method := "POST", headers := [("X-Forwarded-User", "alice")], action := action, opt := "",
+             nonEmptyParams := params, nonEmptyBody := body },
+    inNet := true, bodyOk := true, upstreamErr := fun _ _ => .none,
+    localErr := fun _ _ => false, otherCond := fun _ => false }
+
+example : WellFormed (okEnv "" [] ["Topic"]) (validOf "createTopicChannelHandler").others :=
+  ⟨by decide, rfl, fun _ _ => rfl⟩
+example : run (okEnv "" [] ["Topic", "Channel"]) adminSkel_createTopicChannelHandler
+    = (200, [.bodyRead, .upstream "CreateTopicChannel"]) := by decide
+example : run (okEnv "pause" ["topic"] []) adminSkel_topicActionHandler
+    = (200, [.bodyRead, .upstream "PauseTopic"]) := by decide
+example : run (okEnv "unpause" ["topic", "channel"] []) adminSkel_channelActionHandler
+    = (200, [.bodyRead, .upstream "UnPauseChannel"]) := by decide
+example : run (okEnv "" ["node"] ["Topic"]) adminSkel_tombstoneNodeForTopicHandler
+    = (200, [.bodyRead, .upstream "TombstoneNodeForTopic"]) := by decide
+example : run (okEnv "" ["topic"] []) adminSkel_deleteTopicHandler
+    = (200, [.upstream "DeleteTopic"]) := by decide
+example : run (okEnv "" ["topic", "channel"] []) adminSkel_deleteChannelHandler
+    = (200, [.upstream "DeleteChannel"]) := by decide
+/-- … and what the well-formedness hypothesis excludes is refused *before* anything is sent. -/
+example : run { okEnv "delete" ["topic"] [] with bodyOk := true } adminSkel_topicActionHandler = (400, [.bodyRead]) := by decide
+example : run { okEnv "" [] ["Topic"] with otherCond := fun s => s == "!protocol.IsValidTopicName(body.Topic)" }
+    adminSkel_createTopicChannelHandler = (400, [.bodyRead]) := by decide
 
 /-- **admin_fanout (request level).** The `ClusterInfo` actions as sets of upstream requests
 (model `Nsq.Model.AdminFanout`, tied to `internal/clusterinfo/data.go` by the correspondence
